@@ -10,8 +10,9 @@
    registry (vals.Validator(candidateIndex)), not from a snapshot.
 
    zrnt's sampling loop `for uint64(len(syncCommitteeIndices)) < SYNC_COMMITTEE_SIZE { ... i += 1 }` has NO iteration
-   cap (unlike ComputeProposerIndex's 1000 x 32): with e.g. all effective balances zero it never returns.  The model is
-   therefore fuelled and `OutOfFuel` stands for "still looping after `fuel` candidates" (Go: no return).
+   cap (unlike ComputeProposerIndex's 1000 x 32); it stops only because a zero random byte accepts any candidate
+   (about 256 candidates per seat when every effective balance is zero).  The model is therefore fuelled and
+   `OutOfFuel` stands for "still looping after `fuel` candidates".
    Conventions: Go uint64 arithmetic that can wrap is add64/mul64/sub64 (Base/U64.v); `Panic` = run-time panic,
    `Err` = Go returned an error. *)
 From Coq Require Import NArith List Bool.
